@@ -446,12 +446,92 @@ Proof.
 Qed.
 
 (* ------------------------------------------------------------------ *)
+(* W6 (continued): simple paths.  [path fat cur l]: following the checked
+   successor from cur visits exactly l and then reaches END_OF_CHAIN. *)
+Inductive path (fat : list N) : N -> list N -> Prop :=
+| path_nil : path fat END_OF_CHAIN []
+| path_cons cur nx l : cur <> END_OF_CHAIN -> next_of fat cur = Ok nx ->
+    path fat nx l -> path fat cur (cur :: l).
+
+Lemma chain_ids_go_path fat first : forall f cur acc ids,
+  chain_ids_go f fat first cur acc = Ok ids ->
+  exists l, ids = rev acc ++ l /\ path fat cur l.
+Proof.
+  induction f as [|f IH]; intros cur acc ids H; [discriminate|].
+  rewrite chain_ids_go_S in H. destruct (N.eqb_spec cur END_OF_CHAIN) as [->|Hc].
+  - injection H as <-. exists []. rewrite app_nil_r. split; [reflexivity|constructor].
+  - destruct (next_of fat cur) as [nx| | |] eqn:E; cbn [rbind] in H; try discriminate.
+    destruct (nx =? first); [discriminate|].
+    apply IH in H. destruct H as (l & -> & Hp). exists (cur :: l). split.
+    + cbn [rev]. rewrite <- app_assoc. reflexivity.
+    + econstructor; eauto.
+Qed.
+
+Theorem chain_ids_path fat start ids : chain_ids_of fat start = Ok ids -> path fat start ids.
+Proof.
+  intros H. apply chain_ids_go_path in H. destruct H as (l & -> & Hp). exact Hp.
+Qed.
+
+Lemma path_lt fat cur l : path fat cur l -> Forall (fun x => x < lenN fat) l.
+Proof.
+  induction 1; constructor; [|assumption]. eapply next_of_lt; eauto.
+Qed.
+
+(* a simple path that avoids [first] after its head is what Chain::new accepts *)
+Lemma chain_ids_go_of_path fat first : first <> END_OF_CHAIN ->
+  forall cur l, path fat cur l ->
+  forall f acc, (forall x, In x (tl l) -> x <> first) -> (length l < f)%nat ->
+  chain_ids_go f fat first cur acc = Ok (rev acc ++ l).
+Proof.
+  intros Hf cur l Hp. induction Hp as [|cur nx l Hc Hn Hp IH]; intros f acc Htl Hlen.
+  - destruct f; [lia|]. rewrite chain_ids_go_S, N.eqb_refl, app_nil_r. reflexivity.
+  - destruct f; [cbn in Hlen; lia|]. rewrite chain_ids_go_S.
+    destruct (N.eqb_spec cur END_OF_CHAIN); [contradiction|].
+    rewrite Hn. cbn [rbind].
+    assert (Hnx : nx <> first).
+    { inversion Hp; subst; [congruence|]. apply Htl. cbn. left; reflexivity. }
+    destruct (N.eqb_spec nx first); [contradiction|].
+    rewrite IH; [cbn [rev]; rewrite <- app_assoc; reflexivity| |cbn [length] in Hlen; lia].
+    intros x Hx. apply Htl. cbn [tl]. destruct l; [destruct Hx|right; exact Hx].
+Qed.
+
+Theorem chain_ids_of_path fat start l :
+  path fat start l -> NoDup l -> chain_ids_of fat start = Ok l.
+Proof.
+  intros Hp Hnd. unfold chain_ids_of.
+  destruct (N.eq_dec start END_OF_CHAIN) as [->|Hs].
+  - inversion Hp; subst; [|contradiction]. rewrite chain_ids_go_S, N.eqb_refl. reflexivity.
+  - change l with (rev [] ++ l). apply chain_ids_go_of_path; [assumption|assumption| |].
+    + inversion Hp; subst; [congruence|]. cbn [tl]. inversion Hnd; subst. intros x Hx ->. contradiction.
+    + pose proof (bounded_nodup_length _ _ Hnd (path_lt _ _ _ Hp)) as H.
+      rewrite lenN_length, Nat2N.id in H. lia.
+Qed.
+
+(* seek_within_dir_entry *)
+Lemma dir_sector_go_path fat : forall k start l sid,
+  path fat start l -> nth_error l k = Some sid -> dir_sector_go k fat start = Ok sid.
+Proof.
+  induction k as [|k IH]; intros start l sid Hp Hn.
+  - destruct Hp; [discriminate|]. injection Hn as <-. reflexivity.
+  - destruct Hp as [|cur nx l Hc Hx Hp]; [discriminate|]. cbn [nth_error] in Hn.
+    cbn [dir_sector_go]. destruct (N.eqb_spec cur END_OF_CHAIN); [contradiction|].
+    rewrite Hx. cbn [rbind]. eapply IH; eauto.
+Qed.
+
+Theorem dir_sector_total fat start ids k sid :
+  chain_ids_of fat start = Ok ids -> nth_error ids k = Some sid ->
+  dir_sector_go k fat start = Ok sid.
+Proof. intros H. apply chain_ids_path in H. eapply dir_sector_go_path; eauto. Qed.
+
+(* ------------------------------------------------------------------ *)
 Check check_pointees_spec.
 Check next_of_injective.
 Check chain_ids_total.
 Check chain_ids_nodup.
 Check find_last_total.
 Check count_dir_total.
+Check chain_ids_of_path.
+Check dir_sector_total.
 Print Assumptions check_pointees_spec.
 Print Assumptions next_of_injective.
 Print Assumptions chain_ids_total.
@@ -459,3 +539,5 @@ Print Assumptions chain_ids_nodup.
 Print Assumptions find_last_total.
 Print Assumptions count_dir_total.
 Print Assumptions count_dir_total_checked.
+Print Assumptions chain_ids_of_path.
+Print Assumptions dir_sector_total.
